@@ -1,2 +1,155 @@
-(* C10 -- placeholder until WireProofs.v lands: no theorem yet (the check then reports 0 obligations). *)
-From ONL Require Import Elem.Wire.
+(* C10 -- a wire delays each packet by its drawn delay, keeps order, loses only by rate; a cable is two
+   independent wires.  Only statements, closed by the lemma that proves them, and their assumptions.
+
+   Vocabulary (Elem/Wire.v): an execution is any action list accepted by wire_run from wire0 t0 (every
+   interleaving of puts and kernel steps inside an instant); its trace tr gives arrivals tr (WPut entries
+   with their instants), draws tr ((u, d) of the WGet entries), tgets tr (instants of the WGet entries),
+   tdeliv tr / tlost tr (timed deliveries / losses).  wire_rec is the property's recurrence:
+   F_0 = t0, s_k = max(a_k, F_(k-1)); lost iff loss_rate truthy and u_k < loss_rate, then F_k = s_k;
+   otherwise delivered at T_k = deliver_at s_k a_k d_k (= max(a_k + d_k, F_(k-1)) for d_k >= 0), F_k = T_k. *)
+From Coq Require Import ZArith QArith Qminmax List Bool Sorted.
+From ONL Require Import Elem.Packet Elem.StoreQ Elem.Wire Elem.WireProofs Elem.Cable Elem.CableProofs.
+Import ListNotations.
+
+(* The core: for every loss configuration, every admissible execution and all draws, the recurrence is
+   defined on the trace's arrivals and draws (one outcome per WGet); the k-th WGet concerns the k-th
+   arrival (FIFO) and happens at s_k; the reported losses are the recurrence's; the timed deliveries are
+   exactly the recurrence's deliveries, in order, minus at most the packet still propagating, whose
+   stored deadline equals its T_k. *)
+Theorem C10_wire_spec : forall loss t0 acts w tr,
+  wire_run loss (wire0 t0) acts = Some (w, tr) ->
+  exists R, wire_rec loss t0 (arrivals tr) (draws tr) = Some R
+    /\ arrivals tr = map o_ap R ++ sq_held (wq w)
+    /\ Forall2 Qeq (tgets tr) (map o_start R)
+    /\ tp_equiv (tlost tr) (exp_lost R)
+    /\ match hold w with
+       | None => tp_equiv (tdeliv tr) (exp_deliv R)
+       | Some (p, dl) =>
+           exists R' o T, R = R' ++ [o] /\ o_pkt o = p /\ o_fate o = Deliv T /\ T == dl /\
+                          tp_equiv (tdeliv tr) (exp_deliv R')
+       end.
+Proof. exact wire_spec. Qed.
+Print Assumptions C10_wire_spec.
+
+(* Every delivery seen in the trace (instant t, packet p): p is the i-th arrival (instant a), its draws
+   gave the delay dd; t is never before a + dd; for dd >= 0, t = max(a + dd, completion of packet i-1). *)
+Theorem C10_wire_delivery_time : forall loss t0 acts w tr,
+  wire_run loss (wire0 t0) acts = Some (w, tr) ->
+  forall R, wire_rec loss t0 (arrivals tr) (draws tr) = Some R ->
+  forall k t p, nth_error (tdeliv tr) k = Some (t, p) ->
+  exists i a u dd,
+    nth_error (arrivals tr) i = Some (a, p) /\ nth_error (draws tr) i = Some (u, Some dd) /\
+    a + dd <= t /\
+    (0 <= dd -> t == Qmax (a + dd) (last_fin t0 (firstn i R))) /\
+    t == deliver_at (Qmax a (last_fin t0 (firstn i R))) a dd.
+Proof. exact wire_delivery_time. Qed.
+Print Assumptions C10_wire_delivery_time.
+
+(* Deliveries are never reordered: the delivered packets are, in order, a subsequence of the packets put
+   in; and delivery instants never decrease. *)
+Theorem C10_wire_fifo : forall loss t0 acts w tr,
+  wire_run loss (wire0 t0) acts = Some (w, tr) ->
+  subseq (map snd (tdeliv tr)) (map snd (arrivals tr)).
+Proof. exact wire_fifo. Qed.
+Print Assumptions C10_wire_fifo.
+
+Theorem C10_wire_delivery_instants_sorted : forall loss t0 acts w tr,
+  wire_run loss (wire0 t0) acts = Some (w, tr) ->
+  StronglySorted (fun x y : Q * pkt => fst x <= fst y) (tdeliv tr).
+Proof. exact wire_delivery_instants_sorted. Qed.
+Print Assumptions C10_wire_delivery_instants_sorted.
+
+(* Loss rate None or 0: nothing is lost and the packets put in are, as a list in arrival order, the
+   packets delivered followed by the packets still inside: each exactly once. *)
+Theorem C10_wire_no_loss_exactly_once : forall loss t0 acts w tr,
+  (loss = None \/ exists r, loss = Some r /\ r == 0) ->
+  wire_run loss (wire0 t0) acts = Some (w, tr) ->
+  tlost tr = [] /\ map snd (arrivals tr) = map snd (tdeliv tr) ++ wheld w.
+Proof. exact wire_no_loss_exactly_once. Qed.
+Print Assumptions C10_wire_no_loss_exactly_once.
+
+(* A packet reported lost is never delivered and is not inside any more (distinct packets put in). *)
+Theorem C10_wire_lost_never_delivered : forall loss t0 acts w tr,
+  wire_run loss (wire0 t0) acts = Some (w, tr) ->
+  NoDup (map uid (map snd (arrivals tr))) ->
+  forall t p, In (t, p) (tlost tr) -> ~ In p (map snd (tdeliv tr)) /\ ~ In p (wheld w).
+Proof. exact wire_lost_never_delivered. Qed.
+Print Assumptions C10_wire_lost_never_delivered.
+
+(* A lost packet delays nobody: the next packet is dequeued at max(its arrival, the lost packet's
+   dequeue instant), in the recurrence and at the instants of the trace's WGet entries. *)
+Theorem C10_wire_lost_delays_nobody : forall loss t0 acts w tr,
+  wire_run loss (wire0 t0) acts = Some (w, tr) ->
+  forall R, wire_rec loss t0 (arrivals tr) (draws tr) = Some R ->
+  forall i o o', nth_error R i = Some o -> o_fate o = Lost -> nth_error R (S i) = Some o' ->
+    o_start o' = Qmax (o_arr o') (o_start o) /\
+    exists ti ti', nth_error (tgets tr) i = Some ti /\ nth_error (tgets tr) (S i) = Some ti' /\
+                   ti == o_start o /\ ti' == Qmax (o_arr o') ti.
+Proof. exact wire_lost_delays_nobody. Qed.
+Print Assumptions C10_wire_lost_delays_nobody.
+
+(* Lost iff the loss rate is truthy and the uniform draw is below it. *)
+Theorem C10_wire_loss_iff : forall loss t0 acts w tr,
+  wire_run loss (wire0 t0) acts = Some (w, tr) ->
+  forall R, wire_rec loss t0 (arrivals tr) (draws tr) = Some R ->
+  tp_equiv (tlost tr) (exp_lost R) /\
+  forall i o, nth_error R i = Some o ->
+    exists u d, nth_error (draws tr) i = Some (u, d) /\
+      (o_fate o = Lost <-> exists r x, loss = Some r /\ ~ r == 0 /\ u = Some x /\ x < r).
+Proof. exact wire_loss_iff. Qed.
+Print Assumptions C10_wire_loss_iff.
+
+(* Never held longer: in every reachable state a pending deadline has not been passed, the clock cannot
+   be advanced beyond it, and whenever the clock may advance the server is propagating a packet or the
+   wire holds nothing (work conservation). *)
+Theorem C10_wire_never_late : forall loss t0 w,
+  (exists acts tr, wire_run loss (wire0 t0) acts = Some (w, tr)) ->
+  (forall p dl, hold w = Some (p, dl) -> wnow w <= dl) /\
+  (forall t w' outs, wire_act loss w (WAdvance t) = Some (w', outs) ->
+     wnow w < t /\ (forall p dl, hold w = Some (p, dl) -> t <= dl) /\ (hold w <> None \/ wheld w = [])) /\
+  (forall p dl t, hold w = Some (p, dl) -> dl < t -> wire_act loss w (WAdvance t) = None).
+Proof. exact wire_never_late. Qed.
+Print Assumptions C10_wire_never_late.
+
+(* A cable is two independent wires.  An action of one direction leaves the other direction's state
+   untouched, hands packets only to the device at its far end, and is that wire's own action; ... *)
+Theorem C10_cable_independent_frame : forall loss c d a c' outs,
+  cable_act loss c (CA d a) = Some (c', outs) ->
+  cget c' (other d) = cget c (other d) /\
+  Forall (fun o : cout => fst o = dir_dest d) outs /\
+  wire_act loss (cget c d) a = Some (cget c' d, map snd outs).
+Proof. exact cable_frame. Qed.
+Print Assumptions C10_cable_independent_frame.
+
+(* ... what one direction sees of ANY cable execution is an admissible execution of a single wire with
+   the same states, instants and outputs (so all theorems above hold per direction); ... *)
+Theorem C10_cable_independent : forall loss d acts c c' tr,
+  cable_run loss c acts = Some (c', tr) ->
+  wire_run loss (cget c d) (proj_acts d acts) = Some (cget c' d, proj_tr d tr).
+Proof. exact cable_projection. Qed.
+Print Assumptions C10_cable_independent.
+
+(* ... actions of the two directions commute; ... *)
+Theorem C10_cable_commute : forall loss c a b c1 o1 c2 o2,
+  cable_act loss c (CA D1 a) = Some (c1, o1) -> cable_act loss c1 (CA D2 b) = Some (c2, o2) ->
+  exists c1', cable_act loss c (CA D2 b) = Some (c1', o2) /\ cable_act loss c1' (CA D1 a) = Some (c2, o1).
+Proof. exact cable_commute. Qed.
+Print Assumptions C10_cable_commute.
+
+(* ... and set_endpoints wires dev1 -> wire1 -> dev2 and dev2 -> wire2 -> dev1: every output of
+   direction d is handed to the device at the far end. *)
+Theorem C10_cable_wiring :
+  cable_out Dev1 = NW1 /\ cable_out NW1 = Dev2 /\ cable_out Dev2 = NW2 /\ cable_out NW2 = Dev1 /\
+  dir_dest D1 = Dev2 /\ dir_dest D2 = Dev1 /\
+  (forall d, cable_out (dir_source d) = wire_node d /\ dir_dest d = dir_source (other d)).
+Proof. exact cable_wiring. Qed.
+Print Assumptions C10_cable_wiring.
+
+Theorem C10_cable_outputs_go_across : forall loss acts c c' tr,
+  cable_run loss c acts = Some (c', tr) ->
+  Forall (fun e : ctev => match e with
+                          | (_, CA d _, outs) => Forall (fun o : cout => fst o = dir_dest d) outs
+                          | (_, CAdvance _, outs) => outs = []
+                          end) tr.
+Proof. exact cable_outputs_go_across. Qed.
+Print Assumptions C10_cable_outputs_go_across.
